@@ -11,7 +11,9 @@ TH = 'boost/gil/image_processing/threshold.hpp'
 MO = 'boost/gil/image_processing/morphology.hpp'
 LAM = r'\]\(source_channel_t px\) -> result_channel_t \{'
 NAMES = ['binary_regular', 'binary_inverse', 'trunc_threshold_regular', 'trunc_threshold_inverse', 'trunc_zero_regular', 'trunc_zero_inverse']
-X_TH = [X(n, TH, LAM, nth=i, count=6) for i, n in enumerate(NAMES)]
+R_TH = [('R5.min_t', r'\(?std::min<(\w+)>\)?\(', r'MIN_T(\1, ', False), ('R5.max_t', r'\(?std::max<(\w+)>\)?\(', r'MAX_T(\1, ', False),
+        ('R5.min', r'\(?std::min\)?\(', r'MIN_U(', False), ('R5.max', r'\(?std::max\)?\(', r'MAX_U(', False)]
+X_TH = [X(n, TH, LAM, nth=i, count=6, rules=R_TH) for i, n in enumerate(NAMES)]
 
 SPEC = {
     'binary_regular': 'px > threshold_value ? max_value : 0',
@@ -33,6 +35,9 @@ DOC = {
 
 def th_template():
     t = ['typedef SRC_T source_channel_t; typedef DST_T result_channel_t;',
+         '/* std::min<T>(a, b) / std::max<T>(a, b): both arguments are converted to T first */',
+         '#define MIN_T(T, a, b) (((T)(b) < (T)(a)) ? (T)(b) : (T)(a))', '#define MAX_T(T, a, b) (((T)(a) < (T)(b)) ? (T)(b) : (T)(a))',
+         '#define MIN_U(a, b) (((b) < (a)) ? (b) : (a))', '#define MAX_U(a, b) (((a) < (b)) ? (b) : (a))',
          '/* captured variables of the lambdas */ result_channel_t threshold_value, max_value;']
     for n in NAMES:
         t.append('/* %s */' % DOC[n])
@@ -284,7 +289,7 @@ int main(int argc, char** argv){ vr::parse(argc, argv);
 
 UNITS = []
 for (n, src, dst, tier) in [('u8', 'uint8_t', 'uint8_t', 'quick'), ('i16', 'int16_t', 'int16_t', 'quick'), ('u16', 'uint16_t', 'uint16_t', 'quick'),
-                            ('i8', 'int8_t', 'int8_t', 'thorough'), ('u16_u8', 'uint16_t', 'uint8_t', 'thorough')]:
+                            ('i8', 'int8_t', 'int8_t', 'thorough'), ('u16_u8', 'uint16_t', 'uint8_t', 'quick'), ('i8_u8', 'int8_t', 'uint8_t', 'quick'), ('u8_i16', 'uint8_t', 'int16_t', 'thorough')]:
     UNITS.append(Unit('threshold.' + n, 'C16', th_template(), extracts=X_TH,
                       checks=[Check(x, 'h_' + x, enforce=x, inputs=('px', 't', 'm'), flags=['--conversion-check'] if n == 'f32' else []) for x in NAMES],
                       insts=[(n, tier, {'SRC_T': src, 'DST_T': dst, 'T_SRC': 'std::' + src if src != 'float' else 'float', 'T_DST': 'std::' + dst if dst != 'float' else 'float'})],
